@@ -862,28 +862,28 @@ func main() {
 		"violations":  violations,
 		"assumptions": append(append([]string{}, common...), cfg.Assumptions...),
 		"coverage": map[string]any{
-			"evaluations":              agg.Evals,
-			"distinct_nontrivial":      len(sigs),
-			"rule":                     cfg.Rule,
-			"samples":                  agg.Samples,
-			"simulated_runs":           agg.Runs,
-			"kernel_steps":             agg.Steps,
-			"runs_per_hour":            int(float64(agg.Runs) / max(exploreWall, 0.001) * 3600),
-			"seeds_per_hour":           int(float64(agg.Evals) / max(exploreWall, 0.001) * 3600),
-			"seeds":                    map[string]any{"base": int64(seed), "workers": len(jobs), "derivation": "evaluation seed = mix(mix(base, worker), index)"},
-			"simulated_time_ms":        agg.SimTimeNs / 1e6,
-			"faults_fired":             agg.Faults,
-			"probes":                   probes,
-			"evaluations_per_lane":     laneEvals,
-			"nontrivial_evaluations":   agg.Nontrivial,
-			"known_findings_hit":       len(knownHits),
-			"inconclusive":             inconclusive,
-			"map_sites":                map[string]any{"instrumented": len(sites.Sites), "native": sites.Native, "exercised_nonidentity": len(agg.SiteRuns), "runs_per_site": agg.SiteRuns},
-			"unsupported_constructs":   sites.Unsupported,
-			"go_statements":            map[string]int{"rewritten": sites.GoStmts, "late_argument_evaluation": sites.GoApprox},
-			"determinism_selftest":     map[string]any{"processes": detRuns, "evaluations_each": detEvals, "gomaxprocs": []int{1, 4, 16}, "mismatches": detMismatch},
-			"fresh_vs_warm":            map[string]any{"late_evaluations_reexecuted_in_fresh_processes": histChecked, "differing": histMismatch},
-			"race_lane":                map[string]any{"evaluations": raceEvals, "runs": raceRuns, "race_violation_classes": raceViol, "reports_not_reproduced_in_fresh_processes": raceUnreproduced, "gomaxprocs": 4},
+			"evaluations":            agg.Evals,
+			"distinct_nontrivial":    len(sigs),
+			"rule":                   cfg.Rule,
+			"samples":                agg.Samples,
+			"simulated_runs":         agg.Runs,
+			"kernel_steps":           agg.Steps,
+			"runs_per_hour":          int(float64(agg.Runs) / max(exploreWall, 0.001) * 3600),
+			"seeds_per_hour":         int(float64(agg.Evals) / max(exploreWall, 0.001) * 3600),
+			"seeds":                  map[string]any{"base": int64(seed), "workers": len(jobs), "derivation": "evaluation seed = mix(mix(base, worker), index)"},
+			"simulated_time_ms":      agg.SimTimeNs / 1e6,
+			"faults_fired":           agg.Faults,
+			"probes":                 probes,
+			"evaluations_per_lane":   laneEvals,
+			"nontrivial_evaluations": agg.Nontrivial,
+			"known_findings_hit":     len(knownHits),
+			"inconclusive":           inconclusive,
+			"map_sites":              map[string]any{"instrumented": len(sites.Sites), "native": sites.Native, "exercised_nonidentity": len(agg.SiteRuns), "runs_per_site": agg.SiteRuns},
+			"unsupported_constructs": sites.Unsupported,
+			"go_statements":          map[string]int{"rewritten": sites.GoStmts, "late_argument_evaluation": sites.GoApprox},
+			"determinism_selftest":   map[string]any{"processes": detRuns, "evaluations_each": detEvals, "gomaxprocs": []int{1, 4, 16}, "mismatches": detMismatch},
+			"fresh_vs_warm":          map[string]any{"late_evaluations_reexecuted_in_fresh_processes": histChecked, "differing": histMismatch},
+			"race_lane":              map[string]any{"evaluations": raceEvals, "runs": raceRuns, "race_violation_classes": raceViol, "reports_not_reproduced_in_fresh_processes": raceUnreproduced, "gomaxprocs": 4},
 			"components": map[string]any{
 				"real": []string{"actionlint (every non-test source of the current /repo tree, import clauses and map ranges rewritten by simgen)", "yaml.v3", "doublestar", "robfig/cron", "go-shellwords", "fatih/color", "regexp", "text/template", "encoding/json"},
 				"stub": []string{"sync (Mutex, RWMutex, WaitGroup, Once)", "x/sync errgroup + semaphore", "os file system + cwd (virtual disk)", "os/exec + x/sys/execabs + shellcheck/pyflakes binaries (tool models)", "path/filepath Abs/Walk", "runtime.NumCPU", "time.Now/Sleep (simulated clock)"},
